@@ -4,8 +4,10 @@ claim('C05',
       'Decides, for all inputs, the structural clauses of "criteria never flag a separable state": every accept/reject '
       'comparison of a floating-point linear-algebra result in the decision functions carries a tolerance and every PSD '
       'test is shifted (T1); no criterion raises by construction on its documented domain (K1); closed-form measures have '
-      'no unguarded 0*log 0 (F1). The behaviour itself (that tolerances are large enough, that the SDP tests accept every '
-      'separable state) is value-level and NOT decided.',
+      'no unguarded 0*log 0 (F1); tolerance signs keep each decision on the sound side at the defaults (T2); no threshold is tighter '
+      'than the precision class of the compared value (sqrt of a spectrum is in the 1e-8 class, T3); the feasibility verdict of the '
+      'symmetric-extension SDP is "not infeasible", never "status == optimal" (SV1). That eps-class tolerances are large enough and '
+      'the solver behaviour are value-level and NOT decided.',
       'Trusted: CPython ast; the enumerated guard idioms of F1; the decision-function table in sa/props.py. A construct '
       'outside the enumerated idioms is reported as undecided/analysis error, never as a violation.',
       'ast dataflow: provenance lattice on comparisons (T1), dominance of length facts (K1), guard reaching-definitions + interval analysis (F1)',
@@ -14,7 +16,9 @@ claim('C10',
       'Decides the reproducibility clause for every seed-accepting API of the whole package (53 functions): on every '
       'resolved path the result is a function of arguments and seed only - no ambient draw (S3), every nested seeded '
       'callee receives a seed-derived value in its seed slot (S2), every generator draw has a seed-derived receiver on '
-      'every path (S4, flow-sensitive must-taint). Validity of the returned objects is value-level and NOT decided.',
+      'every path (S4, flow-sensitive must-taint). Of the validity clause one structural part is decided: a complex-capable array composed '
+      'with its own transpose in the random generators is conjugated (HM1: Hermitian outputs). The other validity clauses are value-level '
+      'and NOT decided.',
       'Unresolvable callees (model(), user callables) are not followed; NumPy/LAPACK determinism assumed.',
       'structured forward must-taint dataflow over resolved call bindings (ast)',
       'DESIGN.md 4 (S), 5 C10')
@@ -37,7 +41,8 @@ claim('C18',
       'ast pattern + guard reaching-definitions with interval analysis',
       'DESIGN.md 4 (K, F), 5 C18')
 claim('C20',
-      'Decides that every certificate comparison of the rank / rank-one detectors carries a tolerance (T1), and that the '
+      'Decides that every certificate comparison of the rank / rank-one detectors carries a tolerance (T1) on the conservative side (T2) that '
+      'is not tighter than the precision class of the compared value (T3), and that the '
       'structure-class arms of get_matrix_orthogonal_basis and detect_commute_matrix keep / re-insert Gell-Mann fields '
       'consistently: fields kept after analysis == data fields at synthesis, zeros re-inserted in the dropped block, projections '
       'keep every data field (G2, G3). Exactness of the span/complement and soundness of the hierarchy are value-level and NOT decided.',
@@ -115,7 +120,8 @@ claim('C16',
       'Decides the layout clauses: the basis stacking order, gellmann_matrix arms, analysis concat order and synthesis slices / '
       'off-diagonal placement of numqi.gellmann agree with each other and with the documented order in both backends (G1); every '
       'producer in the package that feeds a projected synthesis respects the layout (G2, 10 sites typed symbolically); the cached '
-      'basis array handed out by all_gellmann_matrix is never mutated (O1). Orthogonality, exact round trip and float32 behaviour '
+      'basis array handed out by all_gellmann_matrix is never mutated (O1); analysis and synthesis are C-linear (no conj/real/imag/abs on '
+      'the data) and with_I only drops the last element after the tensor product (G4). Orthogonality, exact round trip and float32 behaviour '
       'are value-level and NOT decided.',
       'Trusted: projection semantics (.imag keeps the antisymmetric field only, .real keeps S, D, I) which follow from G1.',
       'ast table/slice extraction + symbolic (polynomial) column-range typing',
@@ -141,7 +147,8 @@ claim('C04',
       'Knill-Laflamme adjoint sweep over the reversed sequence and forward twins alpha-equivalent (A2); += accumulation for shared '
       'slots (A3); backward return arity / save-restore arity for all 5 autograd.Function classes (A4); once_differentiable where '
       'backward leaves torch (A5); backward dispatches to the *_grad twin of the forward primitive (D1); the operator-gradient contraction returns legs '
-      '(chosen, fresh) = d/d op[row, col] (R1); parametrised gate matrices agree across backends (B1). That the accumulated '
+      '(chosen, fresh) = d/d op[row, col] (R1); the 0/0 mask of the sqrtm backward indexes with the batch column of its nonzero table (A6); '
+      'parametrised gate matrices agree across backends (B1). That the accumulated '
       'numbers equal the derivative (Sylvester backward, Pade logm) is value-level and NOT decided.',
       'Trusted: the adjoint rule templates; torch.autograd.Function API contract.',
       'ast sibling/twin comparison and operator-form classification (id / T / H) at resolved call sites',
@@ -175,7 +182,8 @@ claim('C19',
       'word), and every Pauli error of weight 1..d-1 (31713 for the 11-qubit code) is detected or degenerate, i.e. Knill-Laflamme '
       'holds below the distance. Also: the stabilizer-string parser appends the fixed Pauli of each letter in both arms (Q1), '
       'make_error_list enumerates each weight-w Pauli exactly once by construction (Q2), name/strings literals agree (Q3), the KL '
-      'custom backward follows the adjoint discipline (A). Asymmetric error sets and weight enumerators are NOT decided.',
+      'custom backward follows the adjoint discipline (A); the count loops of make_asymmetric_error_set reach every free qubit (Q5, polynomial '
+      'identity of the bound). The weighted-bound arithmetic and weight enumerators are NOT decided.',
       'Assumes the simulator applies a recorded gate as the operator of its registry entry (D2 ties names to operators; the '
       'embedding itself is C03). Gate conjugation tables are derived from the literal gate matrices.',
       'abstract interpretation of literal straight-line gate programs over the Pauli tableau domain; finite exhaustive enumeration of errors below d',
